@@ -134,6 +134,7 @@ func checkC11(w *Worker) {
 			defer uninstallMapOrder()
 			defer func() {
 				if r := recover(); r != nil {
+					rethrowSentinel(r)
 					err = fmt.Errorf("PANIC: %v", r)
 				}
 			}()
